@@ -794,11 +794,16 @@ class DiscreteFactor(BaseFactor, StateNameMixin):
             )
             phi1.values = phi1.values.swapaxes(axis, exchange_index)
 
-        phi.values = phi.values / phi1.values
+        values = phi.values / phi1.values
 
         # If factor division 0/0 = 0 but is undefined for x/0. In pgmpy we are using
         # np.inf to represent x/0 cases.
-        phi.values[config.get_compute_backend().isnan(phi.values)] = 0
+        # (`where` instead of item assignment: for factors with an empty scope the
+        # quotient is a scalar, which does not support item assignment.)
+        backend = config.get_compute_backend()
+        phi.values = backend.where(
+            backend.isnan(values), backend.zeros_like(values), values
+        )
 
         if not inplace:
             return phi
